@@ -69,8 +69,8 @@ theorem adv_rtStopHung (dl : Nat) (hw : s.rt = .hungWait dl) (h : hungLive s = f
 theorem adv_rtExit (hh : hungLive s = false) (hrt : s.rt = .stoppingHung ∨ s.rt = .cStoppingHung) :
     Advance cfg s := by
   rcases hrt with hrt | hrt
-  · apply Advance.mk (.rtExit (if s.rootFailed then .raised else .returned))
-      { s with rt := .exited, exitAt := some s.now, result := some (if s.rootFailed then .raised else .returned) } rfl
+  · apply Advance.mk (.rtExit (if s.rootFailed || s.hungFailed then .raised else .returned))
+      { s with rt := .exited, exitAt := some s.now, result := some (if s.rootFailed || s.hungFailed then .raised else .returned) } rfl
       (by intro n h; cases h)
     · simp [step, hh, hrt]
     · simp only [mu, hrt, rtRank, hungTime]; omega
